@@ -66,7 +66,7 @@ struct Dig {
 static const char *const OP_NAMES[] = {
     "copy-construct shared strings",      "find/find_last cs+ci",        "substr/left/right",         "trim",
     "to_upper/to_lower",                   "replace",                     "split",                     "tokenize",
-    "compare/compare_i/hash/hash_i",       "to_utf16",                    "to_utf32",                  "to_wchar",
+    "compare/compare_i/hash/hash_i (fresh and shared function objects)",       "to_utf16",                    "to_utf32",                  "to_wchar",
     "to_latin_1",                          "concatenate",                 "from_int",                  "to_int/to_uint",
     "from_double",                         "to_double/to_float",          "format integers",           "format doubles",
     "format double needing >= 64 chars",   "format strings",              "format {c}",                "hex_encode",
@@ -143,6 +143,14 @@ extern "C" void c20_run_op(int op, int salt, const C20Shared *sh, char *out, siz
         d.num((long long)(ST::hash()(L) % 1000003));
         d.num((long long)(ST::hash_i()(S) % 1000003));
         d.num(L == S);
+        {
+            // the shared function objects, on a key of this thread's own (long enough for any block-wise folding)
+            ST::string own = ST::string::fill(70 + 64 * (size_t)salt, (char)('K' + salt)) + L;
+            d.num((long long)(sh->fn_hash(own) % 1000003));
+            d.num((long long)(sh->fn_hash_i(own) % 1000003));
+            d.num(sh->fn_hash_i(own) == ST::hash_i()(own.to_lower()));
+            d.num(sh->fn_less_i(own, L) + 2 * sh->fn_equal_i(own, own.to_upper()));
+        }
         break;
     case 9: d.b(L.to_utf16()); break;
     case 10: d.b(L.to_utf32()); break;
